@@ -1339,15 +1339,21 @@ class BinaryOperator(SymbolicExpression, ABC):
             keys.extend(node._id_ for node in expression._all_nodes_ if isinstance(node, Flatten))
         return list(dict.fromkeys(keys))
 
-    def yield_final_output_from_cache(self, variables_sources, cache: Optional[IndexedCache] = None) \
-            -> Iterable[Dict[int, HashedValue]]:
+    def yield_final_output_from_cache(self, variables_sources, cache: Optional[IndexedCache] = None,
+                                      deduplicate_true_outputs: bool = False) -> Iterable[Dict[int, HashedValue]]:
+        """
+        Yield the outputs cached for the given sources.
+
+        :param deduplicate_true_outputs: Whether true outputs are de-duplicated like false ones, for operators that
+         also de-duplicate the true outputs they compute themselves (so that cached and computed answers agree).
+        """
         cache = self._cache_ if cache is None else cache
         entered = False
         for output, is_false in self._retrieve_distinct_(cache, variables_sources):
             entered = True
             self._is_false_ = is_false
             cache_match_count.values[self._node_.name] += 1
-            if self._is_duplicate_output_(output):
+            if (is_false or deduplicate_true_outputs) and self._is_duplicate_output_(output):
                 continue
             yield output
         if not entered:
@@ -1783,7 +1789,7 @@ class Union(OR):
         self._yield_when_false_ = yield_when_false
 
         if self._answers_from_cache_ and is_caching_enabled() and self._cache_.check(sources):
-            yield from self.yield_final_output_from_cache(sources)
+            yield from self.yield_final_output_from_cache(sources, deduplicate_true_outputs=True)
             return
 
         # constrain left values by available sources
@@ -1856,7 +1862,8 @@ class ElseIf(OR):
                 left_value.update(sources)
                 if self.left._is_false_:
                     if self._answers_from_cache_ and is_caching_enabled() and self.right_cache.check(left_value):
-                        yield from self.yield_final_output_from_cache(left_value, self.right_cache)
+                        yield from self.yield_final_output_from_cache(left_value, self.right_cache,
+                                                                      deduplicate_true_outputs=True)
                         continue
                     right_prev = self.right._eval_parent_
                     self.right._eval_parent_ = self
